@@ -1,5 +1,6 @@
 /-
-Model of the static-NodePool controllers around `NodePoolState` (one static pool, named `np`):
+Model of the static-NodePool controllers around `NodePoolState` (one static pool, named `np`; the static-drift pass
+also over several pools):
 
 * `pkg/controllers/static/provisioning/controller.go` `Reconcile` (sync gate, counts, `ReserveNodeCount`, one
   `Provisioner.Create` per granted slot, `ReleaseNodeCount` per slot in `CreateNodeClaims`);
@@ -161,47 +162,131 @@ structure DriftResult where
   created : Nat
   panicked : Bool
 
-/-- `StartCommand` for the command whose candidate is `cand`: `lost` = the candidate's Node is gone when it is tainted
-    (`markDisrupted` fails, early return); `createOk` = the replacement NodeClaim could be created (fresh name `new`) -/
-def startCommand (s : State) (cand new : Nat) (lost createOk : Bool) : Option (State × Bool × Bool) :=
+/-- `StartCommand` for the command of pool `p` whose candidate is `cand`: `lost` = the candidate's Node is gone when it
+    is tainted (`markDisrupted` fails, early return); `createOk` = the replacement NodeClaim could be created (fresh
+    name `new`) -/
+def startCommandP (p : Name) (s : State) (cand new : Nat) (lost createOk : Bool) : Option (State × Bool × Bool) :=
   if lost then
     -- returns before `createReplacementNodeClaims`; whether the slot is given back on this path is what the source
     -- says now (regenerated `startCommandReleasesEarly`; at the pinned commit it is not)
     if Karp.Gen.C03Pool.startCommandReleasesEarly then
-      match release .asIs s np 1 with
+      match release .asIs s p 1 with
       | none => none
       | some s' => some (s', false, false)
     else some (s, false, false)
   else
-    let s1 := markPending s np cand
-    let s2 := if createOk then update s1 np new false else s1
-    match release .asIs s2 np 1 with              -- `CreateNodeClaims` releases the slot whether or not Create succeeded
+    let s1 := markPending s p cand
+    let s2 := if createOk then update s1 p new false else s1
+    match release .asIs s2 p 1 with              -- `CreateNodeClaims` releases the slot whether or not Create succeeded
     | none => none
-    | some s3 => some (if createOk then markDeleting s3 np cand else s3, createOk, createOk)
+    | some s3 => some (if createOk then markDeleting s3 p cand else s3, createOk, createOk)
 
-/-- the commands of a round, one `StartCommand` after the other -/
-def driftGo (g : Nat) (lost createFail : List Nat) (next : Nat) (s : State) (i creates created started failed : Nat) :
+def startCommand (s : State) (cand new : Nat) (lost createOk : Bool) : Option (State × Bool × Bool) :=
+  startCommandP np s cand new lost createOk
+
+/-- the commands of a pool, one `StartCommand` after the other -/
+def driftGoP (p : Name) (g : Nat) (lost createFail : List Nat) (next : Nat) (s : State) (i creates created started failed : Nat) :
     List Nat → DriftResult
   | [] => { st := s, commands := g, started := started, failed := failed, created := created, panicked := false }
   | cand :: rest =>
     let isLost := lost.contains i
     let createOk := !createFail.contains creates
-    match startCommand s cand (next + created) isLost createOk with
+    match startCommandP p s cand (next + created) isLost createOk with
     | none => { st := s, commands := g, started := started, failed := failed, created := created, panicked := true }
     | some (s', ok, made) =>
-      driftGo g lost createFail next s' (i + 1) (if isLost then creates else creates + 1)
+      driftGoP p g lost createFail next s' (i + 1) (if isLost then creates else creates + 1)
         (if made then created + 1 else created) (if ok then started + 1 else started) (if ok then failed else failed + 1) rest
 
-/-- `cands`: the drifted candidates in the order `ComputeCommands` takes them; fresh names start at `next` -/
+def driftGo (g : Nat) (lost createFail : List Nat) (next : Nat) (s : State) (i creates created started failed : Nat)
+    (todo : List Nat) : DriftResult :=
+  driftGoP np g lost createFail next s i creates created started failed todo
+
+/-! #### How many drifts `ComputeCommands` asks `ReserveNodeCount` for
+
+`maxDrifts := lo.Min([]int64{…})`: the arguments by class, as the source has them now (regenerated
+`Karp.Gen.C03Pool.staticDriftCapArgs`): 0 = the pool's disruption budget, 1 = the number of drifted candidates of the
+pool being processed, 2 = the number of drifted candidates of ALL pools of the pass. -/
+
+def capArg (budget own all : Nat) : Nat → Nat
+  | 0 => budget
+  | 1 => own
+  | _ => all
+
+/-- `lo.Min` (zero for an empty slice) -/
+def driftCap (args : List Nat) (budget own all : Nat) : Nat :=
+  match args with
+  | [] => 0
+  | a :: rest => rest.foldl (fun m x => min m (capArg budget own all x)) (capArg budget own all a)
+
+/-- one pool of a drift pass -/
+structure PoolIn where
+  /-- the pool's name -/
+  p : Name
+  replicas : Int
+  limit : Option Int
+  /-- `disruptionBudgetMapping[np.Name]` -/
+  budget : Nat
+  /-- its drifted candidates in the order `ComputeCommands` takes them (never empty in the real pass: `lo.GroupBy`) -/
+  cands : List Nat
+  lost : List Nat
+  createFail : List Nat
+  /-- fresh NodeClaim names for its replacements start here -/
+  next : Nat
+
+/-- the body of the loop of `ComputeCommands` for one pool, `all` = number of candidates of the whole pass:
+    the state after `ReserveNodeCount` and the number of commands, `none` = `npCandidates[:maxAllowedDrifts]` is out of
+    range (the reservation just taken stays) -/
+def computeOne (args : List Nat) (all : Nat) (s : State) (P : PoolIn) : State × Option Nat :=
+  let c := counts s P.p
+  if P.budget = 0 || P.cands.isEmpty || ((c.1 + c.2.2 : Nat) : Int) > P.replicas then (s, some 0)
+  else
+    let r := reserve s P.p (nodeLimit P.limit) (driftCap args P.budget P.cands.length all : Nat)
+    if r.2.toNat > P.cands.length then (r.1, none) else (r.1, some r.2.toNat)
+
+/-- `ComputeCommands` over all pools: every pool with the number of its commands; `none` = it panicked -/
+def computeAll (args : List Nat) (all : Nat) : State → List PoolIn → State × Option (List (PoolIn × Nat))
+  | s, [] => (s, some [])
+  | s, P :: rest =>
+    match computeOne args all s P with
+    | (s', none) => (s', none)
+    | (s', some g) =>
+      match computeAll args all s' rest with
+      | (s'', none) => (s'', none)
+      | (s'', some todo) => (s'', some ((P, g) :: todo))
+
+structure PassResult where
+  st : State
+  panicked : Bool
+  /-- per pool, in the order of the input; empty when `ComputeCommands` panicked -/
+  results : List DriftResult
+
+/-- `StartCommand` for every command (pool after pool: commands of different pools touch different entries) -/
+def startAll : State → List (PoolIn × Nat) → PassResult
+  | s, [] => { st := s, panicked := false, results := [] }
+  | s, (P, g) :: rest =>
+    let r := driftGoP P.p g P.lost P.createFail P.next s 0 0 0 0 0 (P.cands.take g)
+    if r.panicked then { st := r.st, panicked := true, results := [r] }
+    else
+      let t := startAll r.st rest
+      { st := t.st, panicked := t.panicked, results := r :: t.results }
+
+def totalCands (pools : List PoolIn) : Nat := (pools.map (·.cands.length)).foldl (· + ·) 0
+
+/-- one static-drift pass over several pools: `ComputeCommands` (all reservations), then the `StartCommand`s -/
+def driftPass (args : List Nat) (s : State) (pools : List PoolIn) : PassResult :=
+  match computeAll args (totalCands pools) s pools with
+  | (s', none) => { st := s', panicked := true, results := [] }
+  | (s', some todo) => startAll s' todo
+
+/-- `cands`: the drifted candidates in the order `ComputeCommands` takes them; fresh names start at `next`
+    (a pass over the single pool `np`) -/
 def driftRound (s : State) (replicas : Int) (limit : Option Int) (budget : Nat) (cands : List Nat)
     (lost createFail : List Nat) (next : Nat) : DriftResult :=
-  let c := counts s np
-  if budget = 0 || cands.isEmpty || ((c.1 + c.2.2 : Nat) : Int) > replicas then
-    { st := s, commands := 0, started := 0, failed := 0, created := 0, panicked := false }
-  else
-    let r := reserve s np (nodeLimit limit) (min budget cands.length : Nat)
-    let g := r.2.toNat
-    driftGo g lost createFail next r.1 0 0 0 0 0 (cands.take g)
+  let P : PoolIn := { p := np, replicas := replicas, limit := limit, budget := budget, cands := cands, lost := lost,
+                      createFail := createFail, next := next }
+  match computeOne Karp.Gen.C03Pool.staticDriftCapArgs cands.length s P with
+  | (s', none) => { st := s', commands := 0, started := 0, failed := 0, created := 0, panicked := true }
+  | (s', some g) => driftGo g lost createFail next s' 0 0 0 0 0 (cands.take g)
 
 def live (w : World) : Nat := count (fun c => !c.apiDeleting) w.claims
 def deleting (w : World) : Nat := count (·.apiDeleting) w.claims
